@@ -170,6 +170,150 @@ func C02(run *mon.Run) {
 		}(i, sk)
 	}
 	wg.Wait()
+	// several groups of keys that cancel (k and -k, or a, b and -(a+b), on one message) among m messages:
+	// in the per-message grouping each such message contributes an identity operand to the pairing product,
+	// for every (m, #cancelling groups) around the pairing batch size
+	{
+		type mc struct{ nm, nc int }
+		var grid []mc
+		for nm := 2; nm <= run.Pick(13, 20); nm++ {
+			for nc := 1; nc <= nm; nc++ {
+				if run.Quick() && nm > 4 && nc > 5 && nc < nm-1 {
+					continue
+				}
+				grid = append(grid, mc{nm, nc})
+			}
+		}
+		for gi, g := range grid {
+			wg.Add(1)
+			sem <- struct{}{}
+			go func(gi int, g mc) {
+				defer wg.Done()
+				defer func() { <-sem }()
+				defer run.Protect("c02 worker")
+				r := run.Rand(fmt.Sprintf("multi-cancel-%d", gi))
+				hn := "kmac:" + tags[0]
+				var ts []c02Triple
+				id := 0
+				add := func(k *big.Int, m []byte) {
+					ts = append(ts, c02Triple{k: k, pk: skFromInt(k).PublicKey(), msg: m, h: hashers[hn], hn: hn, pkID: fmt.Sprintf("k%d", id)})
+					id++
+				}
+				for mi := 0; mi < g.nm; mi++ {
+					m := []byte(fmt.Sprintf("mc-%d-%d", gi, mi))
+					if mi < g.nc {
+						a := randScalar(r)
+						if (gi+mi)%3 == 2 {
+							b := randScalar(r)
+							add(a, m)
+							add(b, m)
+							add(ref.Fr.Neg(ref.Fr.Add(a, b)), m)
+						} else {
+							add(a, m)
+							add(ref.Fr.Neg(a), m)
+						}
+					} else {
+						add(randScalar(r), m)
+						if (gi+mi)%2 == 0 {
+							add(randScalar(r), m)
+						}
+					}
+				}
+				c02RunShape(run, r, 200000+gi, fmt.Sprintf("cancelling-groups-%d-of-%d", min(g.nc, 4), min(g.nm, 9)), ts)
+				run.Count("multi-cancel.shapes", 1)
+			}(gi, g)
+		}
+		wg.Wait()
+	}
+	// exact group sizes: g triples under ONE key (per-key grouping) and g keys on ONE message (per-message
+	// grouping) for every g in a range that covers small-buffer and batch boundaries, honest aggregate
+	// and one wrong candidate each
+	{
+		maxG := run.Pick(132, 300)
+		r := run.Rand("group-sizes")
+		hn := "kmac:" + tags[0]
+		base := make([]*big.Int, maxG+1)
+		pks := make([]crypto.PublicKey, maxG+1)
+		Hs := make([]ref.G1, maxG+1)
+		msgs := make([][]byte, maxG+1)
+		for i := range base {
+			base[i] = randScalar(r)
+			pks[i] = skFromInt(base[i]).PublicKey()
+			msgs[i] = []byte(fmt.Sprintf("group-size-%d", i))
+			H, err := hashPoint(msgs[i], hashers[hn], hn)
+			if err != nil {
+				run.Violate("C02:hash-point", err.Error(), nil)
+				return
+			}
+			Hs[i] = H
+		}
+		// prefix sums: per-key shape g = key 0 on messages 0..g-1 (+ key 1 on message g when g is even)
+		sumH := ref.E1.Infinity()
+		sumK := new(big.Int)
+		for g := 1; g <= maxG; g++ {
+			sumH = ref.E1.Add(sumH, Hs[g-1])
+			sumK = ref.Fr.Add(sumK, base[g-1])
+			g := g
+			SperKey := ref.E1.Mul(sumH, base[0])
+			SperMsg := ref.E1.Mul(Hs[0], sumK)
+			zeroSum := sumK.Sign() == 0
+			wg.Add(1)
+			sem <- struct{}{}
+			go func() {
+				defer wg.Done()
+				defer func() { <-sem }()
+				defer run.Protect("c02 worker")
+				hs := make([]hash.Hasher, 0, g+1)
+				kk := make([]crypto.PublicKey, 0, g+1)
+				mm := make([][]byte, 0, g+1)
+				for i := 0; i < g; i++ {
+					kk, mm, hs = append(kk, pks[0]), append(mm, msgs[i]), append(hs, hashers[hn])
+				}
+				S := SperKey
+				if g%2 == 0 {
+					kk, mm, hs = append(kk, pks[1]), append(mm, msgs[g]), append(hs, hashers[hn])
+					S = ref.E1.Add(S, ref.E1.Mul(Hs[g], base[1]))
+				}
+				for ci, c := range [][]byte{ref.EncodeG1(S), ref.EncodeG1(ref.E1.Add(S, ref.G1Gen))} {
+					var ok bool
+					var err error
+					rep := map[string]any{"shape": "group-size-per-key", "g": g, "candidate": mon.Hex(c)}
+					if run.Guard("VerifyBLSSignatureManyMessages", rep, func() { ok, err = crypto.VerifyBLSSignatureManyMessages(kk, c, mm, hs) }) {
+						continue
+					}
+					run.Eval(1)
+					if err != nil || ok != (ci == 0) {
+						run.Violate(fmt.Sprintf("C02:many:per-key:group-size:expected-%v", ci == 0), fmt.Sprintf("%d messages under one key (%d triples): VerifyBLSSignatureManyMessages = (%v,%v), reference = %v", g, len(kk), ok, err, ci == 0), rep)
+					}
+				}
+				// per message: keys 0..g-1 on message 0
+				kk, mm, hs = kk[:0], mm[:0], hs[:0]
+				for i := 0; i < g; i++ {
+					kk, mm, hs = append(kk, pks[i]), append(mm, msgs[0]), append(hs, hashers[hn])
+				}
+				for ci, c := range [][]byte{ref.EncodeG1(SperMsg), ref.EncodeG1(ref.E1.Add(SperMsg, ref.G1Gen))} {
+					var ok bool
+					var err error
+					rep := map[string]any{"shape": "group-size-per-message", "g": g, "candidate": mon.Hex(c)}
+					if run.Guard("VerifyBLSSignatureManyMessages", rep, func() { ok, err = crypto.VerifyBLSSignatureManyMessages(kk, c, mm, hs) }) {
+						continue
+					}
+					run.Eval(1)
+					want := ci == 0
+					_ = zeroSum // (a zero key sum still verifies the identity signature in ManyMessages: no single key is the identity)
+					if err != nil || ok != want {
+						run.Violate(fmt.Sprintf("C02:many:per-message:group-size:expected-%v", want), fmt.Sprintf("%d keys on one message: VerifyBLSSignatureManyMessages = (%v,%v), reference = %v", g, ok, err, want), rep)
+					}
+				}
+				run.Count("group-size.sizes", 1)
+				if g%16 == 0 {
+					run.Shape(fmt.Sprintf("group-size|%d", g))
+				}
+			}()
+		}
+		wg.Wait()
+		run.Require(run.Counter("group-size.sizes") == int64(maxG), "group-size sweep incomplete")
+	}
 	c02Errors(run)
 	run.Require(run.Counter("path.per-message") >= 20 && run.Counter("path.per-key") >= 20, "both internal groupings not exercised at least 20 times")
 	run.Require(run.Counter("verdict.true") >= 50 && run.Counter("verdict.false") >= 200, "too few true/false verdicts observed")
